@@ -45,7 +45,7 @@ def required_cells(tier):
     return ['functions-match', 'body-lines-equal', 'want-comments-equal', 'star-import-removed',
             'star-import-nested-removed', 'dump-compiles', 'disabled-omitted',
             'two-blocks', 'multi-line-want', 'cli', 'converted-test-runs-the-same-statements',
-            'converted-test-uses-private-module-names', 'kind:mentions_star_import', 'kind:mlstr', 'kind:deco', 'kind:await', 'kind:comment', 'kind:mlstr_trailing', 'kind:markercomment']
+            'converted-test-uses-private-module-names', 'kind:mentions_star_import', 'doctests-in-package-main', 'kind:mlstr', 'kind:deco', 'kind:await', 'kind:comment', 'kind:mlstr_trailing', 'kind:markercomment']
 
 
 AWAIT_ERRORS = ("'await' outside async function", "'async with' outside async function",
@@ -210,7 +210,7 @@ def check_dump_text(ctx, text, expect, modname, src, case, via, mod=None):
     starts = [f.lineno for f in fns] + [len(tl) + 1]
     for fi, (f, exp) in enumerate(zip(fns, expect)):
         ctx.evaluation()
-        want_name = 'test_%s_%s' % (modname, exp['callname'].replace('.', '_')) + ('_%d' % exp['num'] if exp['num'] else '')
+        want_name = 'test_%s_%s' % (modname.replace('.', '_'), exp['callname'].replace('.', '_')) + ('_%d' % exp['num'] if exp['num'] else '')
         if f.name != want_name:
             return bad('function-order', 'function %s found where the doctest of %s is expected' % (f.name, exp['callname']))
         # comments are no AST nodes: the function's text runs up to the next 'def' line
@@ -300,6 +300,17 @@ def check_module(ctx, idx, seed, cli=False):
     compile(src, '<gen>', 'exec')
     modname = 'dmod_%d_%d_%d_zz' % (ctx.seed, ctx.shard, idx)
     path = os.path.join(ctx.tmp, modname + '.py')
+    pkgdir = None
+    if idx % 6 == 4:
+        # the doctests live in the __main__.py of a package; its __init__.py either defines nothing or the same names
+        # (an event log and helpers of its own): the converted tests must import from pkg.__main__, not from pkg
+        pkgdir = os.path.join(ctx.tmp, 'dpk_%d_%d_%d_zz' % (ctx.seed, ctx.shard, idx))
+        os.mkdir(pkgdir)
+        with open(os.path.join(pkgdir, '__init__.py'), 'w') as f:
+            f.write('' if idx % 12 == 4 else 'T = []\n' + gp.PRELUDE + '\n')
+        modname = os.path.basename(pkgdir) + '.__main__'
+        path = os.path.join(pkgdir, '__main__.py')
+        feats.add('doctests-in-package-main')
     with open(path, 'w') as f:
         f.write(src)
     case = {'index': idx, 'case_seed': seed, 'cli': cli}
@@ -315,6 +326,13 @@ def check_module(ctx, idx, seed, cli=False):
             return
         # the module the converted tests import from ('from <modname> import ...')
         import importlib.util
+        if pkgdir is not None:
+            # the package itself, importable the ordinary way
+            pspec = importlib.util.spec_from_file_location(os.path.basename(pkgdir), os.path.join(pkgdir, '__init__.py'),
+                                                           submodule_search_locations=[pkgdir])
+            pmod = importlib.util.module_from_spec(pspec)
+            sys.modules[os.path.basename(pkgdir)] = pmod
+            pspec.loader.exec_module(pmod)
         spec = importlib.util.spec_from_file_location(modname, path)
         mod = importlib.util.module_from_spec(spec)
         sys.modules[modname] = mod
@@ -338,6 +356,10 @@ def check_module(ctx, idx, seed, cli=False):
     finally:
         os.unlink(path)
         sys.modules.pop(modname, None)
+        if pkgdir is not None:
+            import shutil
+            shutil.rmtree(pkgdir, ignore_errors=True)
+            sys.modules.pop(os.path.basename(pkgdir), None)
 
 
 def run_shard(ctx):
